@@ -100,7 +100,8 @@ def safe_duration(q, unit_info, eps=Fraction(1, 10 ** 9)):
 
 def gen_spec(rng, unit_info, *, n_patterns=None, max_len=40, allow_gpu=False, allow_onprem=True,
              allow_fixed=True, allow_delete=False, allow_dumps=False, random_units=True,
-             zones=None, same_window=False, allow_multi_hour_jobs=True, single_zone=False):
+             zones=None, same_window=False, allow_multi_hour_jobs=True, single_zone=False,
+             corner_topologies=True):
     """Draw a random well-formed system spec."""
     zones = zones or ZONES
     if single_zone:
@@ -293,6 +294,27 @@ def gen_spec(rng, unit_info, *, n_patterns=None, max_len=40, allow_gpu=False, al
     if allow_fixed and rng.random() < 0.2:
         stn = rng.choice(list(spec["storages"]))
         spec["storages"][stn]["fixed_nb_of_instances"] = Q(rng.choice([10 ** 9, 10 ** 10]), "dimensionless")
+    if corner_topologies:
+        # legal corners that ordinary models rarely contain (each found by a seeded change that the plain generator missed)
+        if rng.random() < 0.2:
+            # a job installed on a used server but not (yet) placed in any journey step
+            src = rng.choice(jobs)
+            spec["jobs"][f"j{len(spec['jobs'])}"] = copy.deepcopy(spec["jobs"][src])
+        if rng.random() < 0.1:
+            # a journey in which the user spends no time at all (machine-to-machine calls)
+            ujn = rng.choice(journeys)
+            others = {s_ for jn, j in spec["journeys"].items() if jn != ujn for s_ in j["uj_steps"]}
+            if not (set(spec["journeys"][ujn]["uj_steps"]) & others):
+                for s_ in spec["journeys"][ujn]["uj_steps"]:
+                    spec["steps"][s_]["user_time_spent"] = Q(0, "hour")
+        if rng.random() < 0.25:
+            # distinct objects carrying equal values (values compare and hash by value in the library)
+            kind, param = rng.choice([("countries", "average_carbon_intensity"), ("networks", "bandwidth_energy_intensity"),
+                                      ("devices", "power"), ("jobs", "data_transferred"), ("servers", "average_carbon_intensity")])
+            objs_ = list(spec[kind].values())
+            for o in objs_[1:]:
+                if param in o and param in objs_[0]:
+                    o[param] = copy.deepcopy(objs_[0][param])
     return spec
 
 
@@ -366,4 +388,64 @@ def with_random_sources(spec, rng):
                     src = rng.choice(SOURCE_POOL)
                     if src:
                         v["src"] = src
+    return out
+
+
+def plant_corners(spec, rng):
+    """the same kind of model with the legal corners made certain: two usage patterns on one network in two
+    countries of equal carbon intensity, a journey in which no time is spent, a job not placed in any step"""
+    out = copy.deepcopy(spec)
+    pats = list(out["patterns"])
+    if len(pats) >= 2:
+        p0, p1 = pats[0], pats[1]
+        out["patterns"][p1]["network"] = out["patterns"][p0]["network"]
+        if out["patterns"][p1]["country"] == out["patterns"][p0]["country"]:
+            nm = f"c{len(out['countries'])}"
+            out["countries"][nm] = copy.deepcopy(out["countries"][out["patterns"][p0]["country"]])
+            out["patterns"][p1]["country"] = nm
+        out["countries"][out["patterns"][p1]["country"]]["average_carbon_intensity"] = copy.deepcopy(
+            out["countries"][out["patterns"][p0]["country"]]["average_carbon_intensity"])
+    ujn = out["patterns"][pats[-1]]["usage_journey"]
+    others = {s_ for jn, j in out["journeys"].items() if jn != ujn for s_ in j["uj_steps"]}
+    if not (set(out["journeys"][ujn]["uj_steps"]) & others):
+        for s_ in out["journeys"][ujn]["uj_steps"]:
+            out["steps"][s_]["user_time_spent"] = Q(0, "hour")
+    placed = {j for s_ in out["steps"].values() for j in s_["jobs"]}
+    if all(j in placed for j in out["jobs"]):
+        src = rng.choice(list(out["jobs"]))
+        out["jobs"][f"j{len(out['jobs'])}"] = copy.deepcopy(out["jobs"][src])
+    return out
+
+
+def unshare_jobs(spec):
+    """the same model with every usage pattern given its own copy of its journey, steps and jobs (servers, storages,
+    networks, countries and devices stay shared): no job is reachable from two usage patterns"""
+    out = copy.deepcopy(spec)
+    seen_journeys = set()
+    for pn in list(out["patterns"]):
+        p = out["patterns"][pn]
+        ujn = p["usage_journey"]
+        jobs_here = [j for s_ in out["journeys"][ujn]["uj_steps"] for j in out["steps"][s_]["jobs"]]
+        clash = ujn in seen_journeys or any(
+            j in [jj for q_ in seen_journeys for s_ in out["journeys"][q_]["uj_steps"] for jj in out["steps"][s_]["jobs"]] for j in jobs_here)
+        if clash:
+            tag = f"_{pn}"
+            new_steps = []
+            for s_ in out["journeys"][ujn]["uj_steps"]:
+                ns = s_ + tag
+                st = copy.deepcopy(out["steps"][s_])
+                new_jobs = []
+                for j in st["jobs"]:
+                    nj = j + tag
+                    if nj not in out["jobs"]:
+                        out["jobs"][nj] = copy.deepcopy(out["jobs"][j])
+                    new_jobs.append(nj)
+                st["jobs"] = new_jobs
+                out["steps"][ns] = st
+                new_steps.append(ns)
+            nuj = ujn + tag
+            out["journeys"][nuj] = {"uj_steps": new_steps}
+            p["usage_journey"] = nuj
+            ujn = nuj
+        seen_journeys.add(ujn)
     return out
